@@ -90,7 +90,7 @@ class SAModel(tuple):
     parity = property(lambda s: s[3])
 
 
-def trace_encode(fx, version, level, boosted, mask_in=None, eci=False, sa_info=None, boost_error=True):
+def trace_encode(fx, version, level, boosted, mask_in=None, eci=False, sa_info=None, boost_error=True, nsegs=1):
     """Interpret encoder._encode with every stage replaced by a recording stand-in.  Returns the list of
     (stage name, positional args, keyword args, len of the bit buffer at the call) and the value returned.
 
@@ -127,6 +127,6 @@ def trace_encode(fx, version, level, boosted, mask_in=None, eci=False, sa_info=N
         add_codewords=stage('add_codewords'), find_and_apply_best_mask=stage('find_and_apply_best_mask', (5, M1)),
         add_format_info=stage('add_format_info'), add_version_info=stage('add_version_info'),
         Code=stage('Code', lambda *a, **k: ('CODE',) + a))
-    segs = SegmentsModel([SegModel(md['byte'], 'iso-8859-1')])
+    segs = SegmentsModel([SegModel(md['byte'], 'iso-8859-1') for _ in range(nsegs)])
     res = FuncVal(fx.fn('encoder', '_encode'), genv, it)(segs, None if level is None else lv[level], version, mask_in, eci, boost_error, sa_info)
     return rec, res, dict(buffers=bufs, segments=segs, M0=M0, M1=M1)
